@@ -5,6 +5,7 @@ call-by-id (raw client) / return-object / del+gc steps against a live daemon; ev
 serial; returned objects are classified at the caller (Proxy => call through it and check whose log moved; data =>
 must carry the object's own attributes)."""
 import gc
+import time
 
 from vlib import core, gen, fixture, wire
 from checks import c16_items as items
@@ -18,7 +19,7 @@ RULE = ("histories of ~14 steps over a pool of 5 objects and 2 classes: register
 ASSUMPTIONS = ["harness classes that travel by value live in an importable module without '__' and the caller registers a dict-to-class converter (the sanctioned extension point)",
                "forced replacement of an id is an explicit request, not a silent one", "for an object forcibly registered under two ids only id->object dispatch and the reported id set are checked",
                "marshal has no type-replacement hook by design: by-value only"]
-REQUIRED_REACH = ["steps_ok", "calls_dispatched", "unknown_id_refused", "returned_as_proxy", "returned_by_value", "duplicates_refused", "weak_collected", "registered_listing_ok"]
+REQUIRED_REACH = ["steps_ok", "calls_dispatched", "unknown_id_refused", "returned_as_proxy", "returned_by_value", "duplicates_refused", "weak_collected", "registered_listing_ok", "combined_daemon_rounds"]
 SHARD_TIMEOUT = {"quick": 240, "thorough": 2800}
 AUTO = ("serpent", "json", "msgpack")
 
@@ -492,6 +493,79 @@ def classify_missing(i, e, hist, step):
     return "registered-id-lost"
 
 
+def combined_phase(P, rec, r, rounds):
+    """Daemon.combine(): two daemons share one request loop (multiplex server). Each keeps its own registry: requests that arrive at both at
+    the same moment are each answered by the daemon they were sent to - same id, different objects; each daemon lists its own ids."""
+    import threading
+    one = fixture.Fixture(servertype="multiplex", COMMTIMEOUT=0.0)
+    two = fixture.Fixture(servertype="multiplex", COMMTIMEOUT=0.0, start_loop=False)
+    gate = threading.Event()
+
+    @P.server.expose
+    class Holder(object):
+        def hold(self):
+            gate.wait(5)        # parks the (single) loop thread: whatever arrives meanwhile is ready in the same select round afterwards
+            return "held"
+    try:
+        a, b = items.Item("comb-one"), items.Item("comb-two")
+        one.register(a, "shared")
+        two.register(b, "shared")
+        one.register(items.Item("x"), "only-in-one")
+        two.register(items.Item("y"), "only-in-two")
+        one.register(Holder(), "holder")
+        one.daemon.combine(two.daemon)
+        want = {1: (a.serial, {"Pyro.Daemon", "shared", "only-in-one", "holder"}), 2: (b.serial, {"Pyro.Daemon", "shared", "only-in-two"})}
+        proxies = {1: one.proxy("shared", timeout=10.0), 2: two.proxy("shared", timeout=10.0)}
+        dproxies = {1: one.proxy("Pyro.Daemon", timeout=10.0), 2: two.proxy("Pyro.Daemon", timeout=10.0)}
+        for k in (1, 2):
+            proxies[k]._pyroBind()
+            dproxies[k]._pyroBind()
+        for rnd in range(rounds):
+            pay = {"combined": True, "round": rnd}
+            rec.case(("combined", rnd), nontrivial=True)
+            gate.clear()
+            results = {}
+            hp = one.proxy("holder", timeout=10.0)
+            ht = threading.Thread(target=lambda: hp.hold(), daemon=True)
+            ht.start()
+            time.sleep(0.05)
+
+            def call(k, what):
+                try:
+                    results[(k, what)] = proxies[k].who() if what == "who" else set(dproxies[k].registered())
+                except Exception as x:
+                    results[(k, what)] = x
+            # each proxy belongs to the thread that uses it: hand them over
+            ts = []
+            for k in (1, 2):
+                for what in ("who", "reg"):
+                    t = threading.Thread(target=lambda k=k, what=what: ((proxies if what == "who" else dproxies)[k]._pyroClaimOwnership(), call(k, what)), daemon=True)
+                    ts.append(t)
+                    t.start()
+            time.sleep(0.1)
+            gate.set()
+            for t in ts + [ht]:
+                t.join(10)
+            hp._pyroRelease()
+            for k in (1, 2):
+                who, reg = results.get((k, "who")), results.get((k, "reg"))
+                if who != want[k][0]:
+                    rec.violation("call-reaches-wrong-object", "two combined daemons, requests ready at the same moment: the call to id 'shared' sent to daemon %d returned %r; "
+                                  "the object registered there has serial %d (the other daemon's: %d)" % (k, who, want[k][0], want[3 - k][0]), pay)
+                    return
+                if reg != want[k][1]:
+                    rec.violation("listing-differs-from-registry", "two combined daemons: registered() sent to daemon %d returned %r, its registry holds %r" % (
+                        k, sorted(reg) if isinstance(reg, set) else reg, sorted(want[k][1])), pay)
+                    return
+            rec.count("combined_daemon_rounds")
+    except Exception as x:
+        rec.inconc("combined-daemons phase failed in the harness: %r" % (x,))
+    finally:
+        gate.set()
+        one.stop()
+        two.stop()
+
+
 def plan(tier, seed):
     n = 8 if tier == "quick" else 16
     return [{"i": i, "servertype": "thread" if i % 2 == 0 else "multiplex", "histories": 200 if tier == "quick" else 1500} for i in range(n)]
@@ -514,10 +588,17 @@ def run_shard(shard, rec):
     finally:
         fx.sibling.stop()
         fx.stop()
+    if shard["servertype"] == "multiplex":
+        combined_phase(P, rec, r, 4 if rec.tier == "quick" else 40)
+    else:
+        rec.count("combined_daemon_rounds", 0)
 
 
 def replay(payload, rec):
     P = fixture.pyro()
+    if payload.get("combined"):
+        combined_phase(P, rec, gen.rng(rec.seed, "replay"), 10)
+        return
     fx, pool = setup_env(P, payload.get("servertype", "thread"))
     try:
         for i, s in enumerate(payload["history"]):
